@@ -103,6 +103,12 @@ func (p *LeakyBucketPacer) Write(header *rtp.Header, payload []byte, attributes 
 		return 0, errLeakyBucketPacerPoolCastFailed
 	}
 
+	if len(payload) > len(*buf) {
+		// Payload doesn't fit the pooled buffer, fall back to a buffer of its own.
+		b := make([]byte, len(payload))
+		buf = &b
+	}
+
 	copy(*buf, payload)
 	hdr := header.Clone()
 
